@@ -58,7 +58,8 @@ func run(e *harness.Env) {
 		"and every sequence of 4 blocks with at most 2 letters other than the plain paragraph over the full alphabet; " +
 		"(C) for every other combination of optional parts (styles / numbering / header / footer absent) and for ExcludeHeadersAndFooters (with and without header / footer parts): every sequence of <= 2 blocks over the full alphabet (thorough: also 3 blocks over the structural sub-alphabet). " +
 		"(D) numbering layout: every sequence of 1..3 (thorough 1..4) letters of the list sub-alphabet additionally with every other layout of word/numbering.xml (1..3 w:abstractNum definitions of differing numFmt / start, declaration order reversed / rotated / minimal, sparse ids, w:num -> w:abstractNum not the identity, a w:num with lvlOverride/startOverride) resp. of the ODT text:list-style definitions (order reversed / rotated / minimal, common vs automatic styles). " +
-		"(E) one-reader space: every sequence of 1..2 (thorough 1..3) letters of a table / list sub-alphabet: the merge spans reported by a fresh reader's Tables() and ModelTables() against the authored grid, and for every ordered pair (first, second) of the reader views Text, Markdown, Document, Tables, ModelTables, Lists called on ONE opened docx/odt Reader: the second result equals the same view of a fresh reader. " +
+		"(D2) ODT column declarations: every sequence of 1..2 (thorough 1..3) letters of the table sub-alphabet with each spelling of the table:table-column declarations (one repeated declaration, one per column, repeated+single, single+repeated, repeated+repeated); " +
+		"(E) one-reader space (ODT: with each column-declaration spelling): every sequence of 1..2 (thorough 1..3) letters of a table / list sub-alphabet: the merge spans reported by a fresh reader's Tables() and ModelTables() against the authored grid, and for every ordered pair (first, second) of the reader views Text, Markdown, Document, Tables, ModelTables, Lists called on ONE opened docx/odt Reader: the second result equals the same view of a fresh reader. " +
 		"Each document of (A)-(D) is read through Text(), ToMarkdown(), Document() and, when it has list items, docx/odt Reader.Lists(); one evaluation = one (document, view, expected block) triple, plus one per (document, view) for the header/footer clause. " +
 		"distinct = distinct descriptors; non-trivial = the block is not a plain one-run paragraph or its document contains any other letter"
 	e.Assumptions = []string{
@@ -210,6 +211,50 @@ func (c *checker) planLayouts(names []string, structural, listLetters map[string
 	}
 }
 
+// odtColumns is the column-declaration dimension of ODT tables: every sequence of 1..2 (thorough
+// 1..3) letters of the table sub-alphabet that contains a table, with every other spelling of the
+// table:table-column declarations, read through the three extractor views.
+func (c *checker) odtColumns(alpha []odtKind, names []string) {
+	var sub []int
+	for i, n := range names {
+		if odtTableLetters[n] {
+			sub = append(sub, i)
+		}
+	}
+	max := 2
+	if c.e.Thorough() {
+		max = 3
+	}
+	for l := 1; l <= max; l++ {
+		product(len(sub), l, func(s []int) {
+			seq := make([]int, l)
+			sn := make([]string, l)
+			tables := false
+			for i, v := range s {
+				seq[i], sn[i] = sub[v], names[sub[v]]
+				tables = tables || sn[i] != "p1"
+			}
+			if !tables {
+				return
+			}
+			for _, cols := range odtColLayouts[1:] {
+				cs := buildOdt(alpha, seq, odtOpts[0], "id", cols)
+				base := "fmt=odt opt=full mode=default num=id cols=" + cols + fmt.Sprintf(" n=%d seq=%s", l, strings.Join(sn, ","))
+				for _, f := range cs.shape {
+					base += " shape=" + f
+				}
+				only, ok := c.own(base, &cs.x)
+				if !ok {
+					continue
+				}
+				c.evaluate(base, only, "odt", "default", odtw.Members(cs.doc, cs.opts), &cs.x)
+			}
+		})
+	}
+}
+
+var odtTableLetters = map[string]bool{"p1": true, "t11": true, "t22": true, "tcs": true, "trs": true, "trs3": true, "tblk": true, "tblk4": true}
+
 var docxListLetters = map[string]bool{"p1": true, "l0": true, "l1": true, "l2": true, "n0": true, "n1": true, "c0": true, "d0": true, "lbt": true}
 
 var odtListLetters = map[string]bool{"p1": true, "lb0": true, "lb012": true, "ln01": true, "lc0": true, "lb11": true, "lsp": true}
@@ -271,8 +316,8 @@ func (c *checker) odt() {
 				for i, s := range seq {
 					sn[i] = names[s]
 				}
-				cs := buildOdt(alpha, seq, o, layout)
-				base := "fmt=odt opt=" + o.name + " mode=" + mode + " num=" + layout + fmt.Sprintf(" n=%d seq=%s", len(seq), strings.Join(sn, ","))
+				cs := buildOdt(alpha, seq, o, layout, "rep")
+				base := "fmt=odt opt=" + o.name + " mode=" + mode + " num=" + layout + " cols=rep" + fmt.Sprintf(" n=%d seq=%s", len(seq), strings.Join(sn, ","))
 				for _, f := range cs.shape {
 					base += " shape=" + f
 				}
@@ -284,6 +329,7 @@ func (c *checker) odt() {
 			})
 		}
 	}
+	c.odtColumns(alpha, names)
 }
 
 // subDesc is the descriptor of one evaluation: document + view + expected block (blk=hf: the
